@@ -19,6 +19,10 @@ REPO = "/repo"
 
 # property -> list of (name, file relative to /repo, old, new)
 MUTANTS = {
+    "C15": [
+        ("micro-factor", "src/phreeqcpp/prep.cpp", "\t\telse if (c == 'u')\n\t\t{\n\t\t\tmoles *= 1e-6;", "\t\telse if (c == 'u')\n\t\t{\n\t\t\tmoles *= 1.0000001e-6;"),
+        ("grams-to-moles-only-mg", "src/phreeqcpp/prep.cpp", "if (strstr(comp_ref.Get_units().c_str(), \"g/\") != NULL && comp_ref.Get_gfw() != 0.0)", "if (strstr(comp_ref.Get_units().c_str(), \"mg/\") != NULL && comp_ref.Get_gfw() != 0.0)"),
+    ],
     "C02": [
         ("diffuse-layer-term", "src/phreeqcpp/step.cpp", "\t\t\t\t\tmaster_j_ptr->total += coef;", "\t\t\t\t\tmaster_j_ptr->total += coef * 1.0001;"),
         ("mix-cb", "src/phreeqcpp/step.cpp", "\tcb_x += solution_ptr->Get_cb() * extensive;", "\tcb_x += solution_ptr->Get_cb() * intensive;"),
